@@ -188,6 +188,7 @@ def _closed_shell_pair(case, rng, dt, nw, n_batch=1):
     norb, nocc = case["norb"], case["nocc"]
     h0, h1, chol = trials.rand_ham(rng, norb, 3, spin_dep=False, chol_scale=0.4)
     mo = np.linalg.qr(rng.normal(size=(norb, nocc)))[0]
+    ene0 = float(rng.choice([0.0, -3.0, 2.5]))   # the free-projection reference energy must be irrelevant for phaseless runs of either format
     out = {}
     for wt in ("rhf", "uhf"):
         if wt == "rhf":
@@ -200,7 +201,7 @@ def _closed_shell_pair(case, rng, dt, nw, n_batch=1):
             prop = propagation.propagator_unrestricted(dt=dt, n_walkers=nw, n_batch=n_batch)
         wd["rdm1"] = jnp.array([mo @ mo.T, mo @ mo.T])
         ham = hamiltonian.hamiltonian(norb)
-        hd = trials.ham_data_of(h0, h1, chol)
+        hd = trials.ham_data_of(h0, h1, chol, ene0=ene0)
         out[wt] = dict(trial=trial, wave_data=wd, prop=prop, ham=ham, ham_data_raw=hd)
     return out, mo
 
